@@ -662,6 +662,7 @@ fn c05(cx: &Ctx, o: &mut Outcome) {
 fn c06(cx: &Ctx, o: &mut Outcome) {
     o.evaluated = true;
     let r = cx.r;
+    worker_asleep("C06", r, o);
     let dead: Vec<&crate::rt::ThreadRec> = r.threads.iter().filter(|t| !t.alive && t.name != "accept").collect();
     let history: String = cx.sc.conns.iter().take(6).map(|c| c.class.clone()).collect::<Vec<_>>().join(",");
     match &r.end {
@@ -734,6 +735,18 @@ fn c06(cx: &Ctx, o: &mut Outcome) {
 
 // ------------------------------------------------------------------------------------------- C07
 
+/// Liveness in simulated time: the pinned tree never sleeps. A worker that sleeps for half a minute
+/// or more is a worker that serves nobody meanwhile - the tasks queued behind it wait although
+/// nothing they need is busy (C07), and the server has one worker less for that long (C06).
+const WORKER_SLEEP_LIMIT_MS: u64 = 30_000;
+
+fn worker_asleep(prop: &str, r: &Report, o: &mut Outcome) {
+    let ms = r.reach.get("longest_single_sleep_of_a_worker_ms").copied().unwrap_or(0);
+    if ms >= WORKER_SLEEP_LIMIT_MS {
+        o.verdicts.push(v(prop, "liveness.worker_asleep", format!("a worker thread slept {} s of simulated time in one call (limit {} s): nobody is served by it meanwhile", ms / 1000, WORKER_SLEEP_LIMIT_MS / 1000), None));
+    }
+}
+
 fn c07(sc: &Scenario, r: &Report, o: &mut Outcome) {
     let p = match &sc.pool {
         Some(p) => p,
@@ -743,6 +756,7 @@ fn c07(sc: &Scenario, r: &Report, o: &mut Outcome) {
         }
     };
     o.evaluated = true;
+    worker_asleep("C07", r, o);
     let n = p.tasks.len();
     match &r.end {
         End::Completed => {
